@@ -70,26 +70,33 @@ def step(sx, B):
 @condition("C05.step_length",
            anchors=["polyply.src.random_walk:RandomWalk.update_positions", "polyply.src.nonbond_engine:NonBondEngine.get_interaction",
                     "polyply.src.nonbond_engine:NonBondEngine.from_topology", "polyply.src.topology:lorentz_berthelot_rule"],
-           replay=False, must_cover=["mixed sizes"],
+           replay=False, must_cover=["mixed sizes", "same name, different template"],
            stubs=["random_walk._take_step -> records the step length it is given", "RandomWalk._is_overlap -> False (C05.overlap)"],
            bounds={"quick": {}, "thorough": {}})
 def step_length(sx, B):
-    """Real RandomWalk.update_positions with the real NonBondEngine.from_topology interaction matrix over symbolic residue sizes and
-    a symbolic step factor: the step length handed to the step function is step factor x mean of the two residue sizes, and the
-    walk starts from the position of the residue it grows from."""
-    sa, sb = sx.real("sizeA", 0, None, lo_strict=True), sx.real("sizeB", 0, None, lo_strict=True)
+    """Real RandomWalk.update_positions, twice in a row on one walker, with the real NonBondEngine.from_topology interaction matrix
+    over symbolic residue sizes and a symbolic step factor. Residues are typed as the engine types them: by their template (two
+    residues of the same name may have different templates - e.g. an end group - and hence different sizes). Claims: the step length
+    handed to the step function is step factor x mean of the sizes of the two residues, for the first and for the following step,
+    and each walk starts from the position of the residue it grows from."""
+    size = {"A#1": sx.real("sizeA1", 0, None, lo_strict=True), "A#2": sx.real("sizeA2", 0, None, lo_strict=True),
+            "B#1": sx.real("sizeB", 0, None, lo_strict=True)}
     fudge = sx.real("step_fudge", 0, None, lo_strict=True)
-    names = [sx.sel("res%d" % i, ["A", "B"]) for i in range(3)]
-    mol = meta_from_shape("path3", resnames=names)
+    tmpl = [sx.sel("res%d" % i, ["A#1", "A#2", "B#1"]) for i in range(4)]
+    names = [t.split("#")[0] for t in tmpl]
+    mol = meta_from_shape("path4", resnames=names)
+    for i in range(4):
+        mol.nodes[i]["template"] = tmpl[i]
     mol.nodes[0]["position"] = np.array([1.0, 1.0, 1.0])
     mol.nodes[1]["position"] = np.array([1.5, 1.0, 1.0])
-    top = make_topology([mol], volumes={"A": sa, "B": sb})
+    top = make_topology([mol], volumes=size)
     eng = NonBondEngine.from_topology([mol], top, np.array([10.0, 10.0, 10.0]))
     seen = []
+    points = [np.array([2.0, 1.0, 1.0]), np.array([2.5, 1.0, 1.0])]
 
     def take(vectors, step_length, coord, box):
         seen.append((step_length, np.array(coord, dtype=float)))
-        return np.array([2.0, 1.0, 1.0]), 0
+        return points[len(seen) - 1], 0
 
     class RW(RandomWalk):
         def _is_overlap(self, point, node, nrexcl=1):
@@ -98,12 +105,19 @@ def step_length(sx, B):
     walker.molecule = mol
     with patched(rw, _take_step=take):
         walker.update_positions(np.array([[1.0, 0.0, 0.0]]), 2, 1)
-    size = {"A": sa, "B": sb}
-    if names[1] != names[2]:
+        walker.update_positions(np.array([[1.0, 0.0, 0.0]]), 3, 2)
+    if tmpl[1] != tmpl[2]:
         sx.cover("mixed sizes")
-    sx.claim(len(seen) >= 1, "a step is attempted")
-    sx.claim(seen[0][0] == fudge * (size[names[1]] + size[names[2]]) / 2, "step length is step factor x mean of the two residue sizes")
+    if any(names[i] == names[j] and tmpl[i] != tmpl[j] for i in range(4) for j in range(4)):
+        sx.cover("same name, different template")
+    sx.claim(len(seen) == 2, "one step is attempted per residue")
+    if len(seen) != 2:
+        return
+    sx.claim(seen[0][0] == fudge * (size[tmpl[1]] + size[tmpl[2]]) / 2, "step length is step factor x mean of the two residue sizes")
+    sx.claim(seen[1][0] == fudge * (size[tmpl[2]] + size[tmpl[3]]) / 2, "the following step uses the sizes of its own two residues",
+             lambda: "templates %r" % (tmpl,))
     sx.claim(bool(np.array_equal(seen[0][1], [1.5, 1.0, 1.0])), "the step starts at the residue grown from")
+    sx.claim(bool(np.array_equal(seen[1][1], [2.0, 1.0, 1.0])), "the following step starts at the residue just placed")
 
 
 @condition("C05.acceptance",
